@@ -118,9 +118,20 @@ func c10run(r *rng.R, name, crypto string, mode ua.MessageSecurityMode) c10case 
 	if seq < 1000 && len(c.History) > 0 && c.History[0].Seq > 4294960000 {
 		ncopy = 0 // the numbers rolled over: a copy from before the roll-over is, by the rule, a new number
 	}
+	ascending := ncopy >= 2 && r.Intn(2) == 0 // copies of two earlier chunks, in ascending order, at the end
+	nOrig := len(c.History)
 	for j := 0; j < ncopy; j++ {
 		src := r.Intn(len(c.History))
 		pos := r.Range(src+1, len(c.History))
+		if ascending {
+			if j >= 2 || nOrig < 2 {
+				break
+			}
+			src, pos = j*(nOrig-1)/1*0+j, len(c.History)
+			if j == 1 {
+				src = nOrig - 1
+			}
+		}
 		cp := c.History[src]
 		cp.Copy = true
 		cp.Orig = c.History[src].Orig
